@@ -72,14 +72,15 @@ type termKey struct {
 }
 
 type TermStore struct {
-	tab  map[termKey]*Term
-	next int
-	tt   *Term
-	ff   *Term
+	tab   map[termKey]*Term
+	next  int
+	tt    *Term
+	ff    *Term
+	subst map[*Term]*Term // symbols fixed to a constant by the path condition
 }
 
 func NewTermStore() *TermStore {
-	ts := &TermStore{tab: make(map[termKey]*Term, 1024)}
+	ts := &TermStore{tab: make(map[termKey]*Term, 1024), subst: map[*Term]*Term{}}
 	ts.tt = ts.mk(OpConst, 0, nil, nil, nil, 1, "")
 	ts.ff = ts.mk(OpConst, 0, nil, nil, nil, 0, "")
 	return ts
@@ -629,6 +630,9 @@ func (ts *TermStore) Eq(a, b *Term) *Term {
 	if a.IsConst() {
 		a, b = b, a
 	}
+	if a.w > 0 && (a.op == OpXor || b.op == OpXor) {
+		return ts.eqXor(a, b)
+	}
 	if a.w == 0 {
 		if b.IsTrue() {
 			return a
@@ -995,4 +999,90 @@ func evalByte(t *Term, v uint64, memo map[*Term]uint64) uint64 {
 	}
 	memo[t] = r
 	return r
+}
+
+// eqXor normalises a == b when xor chains are involved: both sides are flattened, symbols fixed by
+// the path condition are replaced by their constants, equal leaves cancel, constants fold, and the
+// remaining leaves are rebuilt as a canonical left-deep chain compared with one constant.
+func (ts *TermStore) eqXor(a, b *Term) *Term {
+	w := a.w
+	var k uint64
+	count := map[*Term]int{}
+	var order []*Term
+	var stack []*Term
+	stack = append(stack, a, b)
+	for len(stack) > 0 {
+		x := stack[len(stack)-1]
+		stack = stack[:len(stack)-1]
+		if x.op == OpXor {
+			stack = append(stack, x.a, x.b)
+			continue
+		}
+		if s, ok := ts.subst[x]; ok {
+			x = s
+		}
+		if x.IsConst() {
+			k ^= x.k
+			continue
+		}
+		if count[x] == 0 {
+			order = append(order, x)
+		}
+		count[x]++
+	}
+	var leaves []*Term
+	for _, x := range order {
+		if count[x]%2 == 1 {
+			leaves = append(leaves, x)
+		}
+	}
+	if len(leaves) == 0 {
+		return ts.Bool(k == 0)
+	}
+	sortTermsByID(leaves)
+	chain := leaves[0]
+	for _, x := range leaves[1:] {
+		chain = ts.mk(OpXor, w, chain, x, nil, 0, "")
+	}
+	kc := ts.Const(w, k)
+	if chain.op != OpXor {
+		return ts.Eq(chain, kc)
+	}
+	return ts.mk(OpEq, 0, chain, kc, nil, 0, "")
+}
+
+func sortTermsByID(ts []*Term) {
+	// insertion sort for short lists, otherwise a simple merge sort (stable, no reflection)
+	if len(ts) < 24 {
+		for i := 1; i < len(ts); i++ {
+			for j := i; j > 0 && ts[j].id < ts[j-1].id; j-- {
+				ts[j], ts[j-1] = ts[j-1], ts[j]
+			}
+		}
+		return
+	}
+	mid := len(ts) / 2
+	l := append([]*Term{}, ts[:mid]...)
+	r := append([]*Term{}, ts[mid:]...)
+	sortTermsByID(l)
+	sortTermsByID(r)
+	i, j, k := 0, 0, 0
+	for i < len(l) && j < len(r) {
+		if l[i].id <= r[j].id {
+			ts[k] = l[i]
+			i++
+		} else {
+			ts[k] = r[j]
+			j++
+		}
+		k++
+	}
+	for ; i < len(l); i++ {
+		ts[k] = l[i]
+		k++
+	}
+	for ; j < len(r); j++ {
+		ts[k] = r[j]
+		k++
+	}
 }
